@@ -1,8 +1,147 @@
-(* C03 — exported theorems only. *)
+(* C03 — Quota admission never lets usage pass the quota's limit.  Exported theorems only. *)
 From Coq Require Import List ZArith Bool.
-From Verif Require Import C03.Model C03.Spec C03.Proofs.
+From Verif Require Import C02.Model C03.Model C03.Spec C03.Codec C03.Entry C03.Proofs C03.Proofs_Runtime
+     C03.Proofs_Inv C03.Proofs_Step C03.Proofs_Check C03.Proofs_Sound C03.Proofs_Hist C03.Proofs_Codec.
+Import ListNotations.
 Open Scope Z_scope.
 
-Theorem c03_all_dims_spec : forall f, all_dims f = true <-> forall d, f d = true.
-Proof. exact all_dims_spec. Qed.
-Print Assumptions c03_all_dims_spec.
+(* 1. A pod is admitted only if usage + request stays within the limit in force (runtime quota, or
+      max when runtime quota is off) in every dimension its quota declares; a non-preemptible pod
+      only if non-preemptible usage + request stays within min; and, when parent checking is on,
+      within every ancestor's limit in the dimensions the pod requests.  Any state, any switches. *)
+Theorem c03_admit_sound : forall cfg st p q anc,
+  admission cfg st p (q :: anc) = 0 ->
+  admissible (chk_parent cfg) p q anc (limit_of cfg st).
+Proof. exact admission_sound. Qed.
+Print Assumptions c03_admit_sound.
+
+(* 2. Every rejection is real: it names a quota of the path and a dimension whose limit would be passed. *)
+Theorem c03_reject_complete : forall cfg st p q anc,
+  admission cfg st p (q :: anc) = 1 ->
+  let mreq := vmask (q_decl q) (p_req p) in
+  exceeds_self q (limit_of cfg st q) mreq
+  \/ (p_np p = true /\ exceeds_np q mreq)
+  \/ (chk_parent cfg = true /\ exists a, In a anc /\ exceeds_anc a (limit_of cfg st a) mreq).
+Proof. exact admission_reject_witness. Qed.
+Print Assumptions c03_reject_complete.
+
+Theorem c03_reject_not_admissible : forall cfg st p q anc,
+  admission cfg st p (q :: anc) = 1 ->
+  ~ admissible (chk_parent cfg) p q anc (limit_of cfg st).
+Proof. exact admission_complete. Qed.
+Print Assumptions c03_reject_not_admissible.
+
+Theorem c03_verdict_total : forall cfg st p q anc,
+  admission cfg st p (q :: anc) = 0 \/ admission cfg st p (q :: anc) = 1.
+Proof. exact admission_total. Qed.
+Print Assumptions c03_verdict_total.
+
+(* 3. After ANY history (no hypothesis at all), the limit in force of a webhook-valid quota
+      (0 <= min <= max on its keys) is within its max — the runtime quota never exceeds max. *)
+Theorem c03_limit_le_max : forall cfg ops q,
+  In q (quotas (exec cfg init_state ops)) -> quota_okb q = true ->
+  used_le_max q (limit_of cfg (exec cfg init_state ops) q).
+Proof. exact limit_le_max_hist. Qed.
+Print Assumptions c03_limit_le_max.
+
+(* 4. Hence: after any history of quota creations/updates, pending-pod arrivals, scheduling attempts
+      (admission check + reserve), unreserves, pod deletions and capacity changes, in any order,
+      with well-formed objects ([wf_hist]: quota objects the webhook accepts, non-negative
+      requests) and in which no max is lowered and no already-bound pod is replayed ([benign]),
+      every quota shows used <= max in every dimension it declares — for every quota when parent
+      checking is on, for every quota without child quotas when it is off.  All four switch
+      combinations ([cfg] is universally quantified). *)
+Theorem c03_used_le_max : forall cfg ops,
+  wf_hist cfg init_state ops = true -> benign cfg init_state ops = true ->
+  forall q, In q (quotas (exec cfg init_state ops)) ->
+    (chk_parent cfg = true
+     \/ forall c, In c (quotas (exec cfg init_state ops)) -> q_parent c <> q_id q) ->
+    used_le_max q (q_used q).
+Proof. exact used_le_max_plain. Qed.
+Print Assumptions c03_used_le_max.
+
+(* 4'. Per quota, without [benign]: whatever else happens in the history (other quotas' max
+       lowered, bound pods replayed elsewhere), a quota whose ghost flag is clear — its own max was
+       never lowered, no bound pod was replayed below it, and it has no child quota while parent
+       checking is off — is within max. *)
+Theorem c03_used_le_max_per_quota : forall cfg ops,
+  wf_hist cfg init_state ops = true ->
+  forall q, In q (quotas (exec cfg init_state ops)) -> q_taint q = false ->
+            used_le_max q (q_used q).
+Proof. exact used_le_max_flag. Qed.
+Print Assumptions c03_used_le_max_per_quota.
+
+(* 5. The invariant behind 3 and 4 is kept by every single operation in every state. *)
+Theorem c03_step_invariant : forall cfg wf st o,
+  INV cfg wf st -> INV cfg (wf && op_okb st o) (fst (step cfg st o)).
+Proof. exact INV_step. Qed.
+Print Assumptions c03_step_invariant.
+
+(* 6. The decision procedure that bin/check runs on the IMPLEMENTATION's observations accepts
+      everything the model produces, for all histories and all switch combinations ... *)
+Theorem c03_check_accepts_model : forall cfg ops,
+  prop_code cfg ops (run cfg init_state ops) = 0.
+Proof. exact prop_code_run. Qed.
+Print Assumptions c03_check_accepts_model.
+
+(* ... also end to end over the flat-integer wire format, for every input whatsoever *)
+Theorem c03_wire_end_to_end : forall inp, prop_case inp (run_case inp) = 0.
+Proof. exact prop_case_run_case. Qed.
+Print Assumptions c03_wire_end_to_end.
+
+(* 7. ... and what it accepts satisfies the Props of Spec.v (soundness of the decision procedure). *)
+Theorem c03_check_sound : forall cfg ops os,
+  prop_code cfg ops os = 0 -> holds cfg true init_state [] ops os.
+Proof. exact prop_code_sound. Qed.
+Print Assumptions c03_check_sound.
+
+(* ---------- non-vacuity ---------- *)
+Definition v3 (a b c : Z) : vec := mkVec a b c.
+Definition cm : mask := mkMask true true false.
+(* a parent with two children, pending pods, attempts (admitted and rejected), roll-back,
+   deletion, a max raise and a capacity change *)
+Definition ex_hist : list op :=
+  [ OCapacity (v3 20 40 0);
+    OQuotaAdd 1 0 true cm (v3 10 20 0) cm (v3 4 8 0) (v3 0 0 0);
+    OQuotaAdd 2 1 true cm (v3 6 20 0) cm (v3 2 4 0) (v3 0 0 0);
+    OQuotaAdd 3 1 false cm (v3 8 10 0) cm (v3 2 4 0) (v3 1 1 0);
+    OPodAdd 1 2 false (v3 4 5 7); OPodAdd 2 2 false (v3 3 5 0); OPodAdd 3 3 true (v3 2 2 0);
+    OPodAdd 4 3 true (v3 1 3 0);
+    OAttempt 1; OAttempt 2; OAttempt 3; OAttempt 4;
+    OUnreserve 1; OAttempt 2; OPodDelete 2;
+    OQuotaUpdate 2 (v3 9 20 0) cm (v3 2 4 0) (v3 0 0 0);
+    OCapacity (v3 5 9 0); OAttempt 1; OAttempt 4 ].
+
+Example ex_hist_wf : forall rt chk,
+  wf_hist (mkConfig rt chk) init_state ex_hist = true
+  /\ benign (mkConfig rt chk) init_state ex_hist = true.
+Proof. intros [|] [|]; vm_compute; split; reflexivity. Qed.
+
+(* verdicts of the seven attempts for the four switch combinations: both outcomes occur *)
+Example ex_hist_verdicts :
+  map (fun cfg => map o_status (filter (fun o => negb (o_status o =? -1) && negb (length (o_limits o) =? 0)%nat)
+                                       (run cfg init_state ex_hist)))
+      [mkConfig false false; mkConfig false true; mkConfig true false; mkConfig true true]
+  = [[0; 1; 0; 1; 0; 0; 1]; [0; 1; 0; 1; 0; 0; 1]; [0; 1; 0; 1; 0; 1; 1]; [0; 1; 0; 1; 0; 1; 1]].
+Proof. vm_compute. reflexivity. Qed.
+
+(* the exclusions of theorem 4 are necessary: an already-bound pod replayed by the informer is
+   charged without admission ... *)
+Example ex_bound_pod_bypasses_admission :
+  let st := exec (mkConfig false true) init_state
+                 [OQuotaAdd 1 0 true cm (v3 4 4 0) cm (v3 0 0 0) (v3 0 0 0);
+                  OPodAddBound 1 1 false (v3 9 1 0)] in
+  map (fun q => (q_used q, q_max q, q_taint q)) (quotas st) = [(v3 9 1 0, v3 4 4 0, true)].
+Proof. vm_compute. reflexivity. Qed.
+
+(* ... and without parent checking a parent can pass its max through its children *)
+Example ex_parent_passes_max_without_check :
+  let st := exec (mkConfig false false) init_state
+                 [OQuotaAdd 1 0 true cm (v3 4 4 0) cm (v3 0 0 0) (v3 0 0 0);
+                  OQuotaAdd 2 1 true cm (v3 4 4 0) cm (v3 0 0 0) (v3 0 0 0);
+                  OQuotaAdd 3 1 true cm (v3 4 4 0) cm (v3 0 0 0) (v3 0 0 0);
+                  OPodAdd 1 2 false (v3 3 1 0); OPodAdd 2 3 false (v3 3 1 0);
+                  OAttempt 1; OAttempt 2] in
+  map (fun q => (q_id q, q_used q, q_taint q)) (quotas st)
+  = [(1, v3 6 2 0, true); (2, v3 3 1 0, false); (3, v3 3 1 0, false)].
+Proof. vm_compute. reflexivity. Qed.
